@@ -255,7 +255,7 @@ func runCase(cp *Comp, c Case, kind string, tr *hx.Trace) {
 		}
 
 		label := c.Comp
-		if c.Comp == "store" || c.Comp == "churn" {
+		if c.Comp == "store" || c.Comp == "churn" || c.Comp == "prov" {
 			label += ":" + c.Stack.String()
 		}
 
@@ -299,7 +299,22 @@ func runCase(cp *Comp, c Case, kind string, tr *hx.Trace) {
 			rec.Trivial = !res.overlapped
 		}
 
-		if !cp.NoLin && rec.Oracle == "ok" {
+		unknown := false
+
+		for _, e := range h {
+			if e.Out.Kind == "unknown" {
+				unknown = true
+			}
+		}
+
+		if unknown {
+			// a result the harness could not project (see provInst.Exec): no verdict on this history
+			rec.Trivial = true
+			rec.Dist = append(rec.Dist, "unprojectable-result")
+			rec.Class = "inconclusive/" + label
+		}
+
+		if !cp.NoLin && rec.Oracle == "ok" && !unknown {
 			w, ok, inconclusive := linearize(h, cp.Model(c))
 			if inconclusive {
 				// the witness search ran out of budget: no verdict on this history (never a violation)
@@ -532,6 +547,37 @@ func forcedCases(r *hx.Rng, tier string) []Case {
 		}
 	}
 
+	// provider level: OpenStore parked inside the OpenStore of the provider below (or, bare mem, not parked), another
+	// provider-level call meanwhile; afterwards writes through one handle are read through the other
+	for _, st := range provStacks() {
+		if len(st.Wraps) == 0 {
+			continue
+		}
+
+		pbs := []Op{{Kind: "popen", U: 1}, {Kind: "popen", U: 1, K: 9}, {Kind: "popen", U: 2}, {Kind: "psetcfg", U: 1, Ks: []int{1}}}
+		if !provRestricted(st) {
+			pbs = append(pbs, Op{Kind: "pgetopen"})
+		}
+
+		for _, pre := range [][]Op{{}, {{Kind: "popen", U: 2}}} {
+			for bi := range pbs {
+				for park := 0; park < 2; park++ {
+					a, b := Op{Kind: "popen", U: 1}, pbs[bi]
+					post := []Op{
+						{Kind: "pput", U: 1, K: 1, V: 5, ID: 2}, {Kind: "pget", U: 1, K: 1, ID: 3}, {Kind: "pput", U: 1, K: 2, V: 6, ID: 3},
+						{Kind: "pget", U: 1, K: 2, ID: 2}, {Kind: "pget", U: 1, K: 1, ID: 2},
+					}
+
+					if !provRestricted(st) {
+						post = append(post, Op{Kind: "pgetopen"}, Op{Kind: "pgetcfg", U: 1})
+					}
+
+					cs = append(cs, Case{Comp: "prov", Stack: st, Mode: "forced", Pre: pre, A: &a, B: &b, Park: park, Post: post})
+				}
+			}
+		}
+	}
+
 	// Message registry: a delivery parked between two of its sends (or before the first), an Unregister/Register
 	// of another or the same channel meanwhile; at least two channels registered
 	mpres := [][]Op{{{Kind: "mreg", U: 1}, {Kind: "mreg", U: 2}, {Kind: "mreg", U: 3}}, {{Kind: "mreg", U: 2}, {Kind: "mreg", U: 1}}}
@@ -588,6 +634,10 @@ func stressCases(r *hx.Rng, tier string) []Case {
 	add("sess", Stack{}, 120)
 	add("reg", Stack{}, 120)
 	add("msg", Stack{}, 120)
+
+	for _, st := range provStacks() {
+		add("prov", st, 40)
+	}
 	add("inbox", Stack{}, 100)
 	add("pool", Stack{}, 20)
 
